@@ -123,6 +123,38 @@ def rcap(db, func, rep, rule="R-CAP", counters_only=True, caller_summaries=True,
     count = 0
     for st, lhs in store_targets(func):
         for arr, alen, idx, apath in indexed_accesses(lhs, sd):
+            hres = _index_helper(db, func, idx, sd)
+            if hres is not None:
+                # index computed by a static helper: the bound must hold on every non-constant return of the helper
+                H, rets = hres
+                isarmed = True if armed is None else armed(apath, func)
+                if isarmed is None or not facts.reachable(st):
+                    continue
+                hf = Facts(H)
+                hsd = single_defs(H)
+                for r, hlin in rets:
+                    if hlin[0] is None:
+                        ok, ubtxt, cp = 0 <= hlin[1] <= alen - 1, "constant %d" % hlin[1], "const"
+                    else:
+                        cp, hoff = hlin
+                        ub = upper_bound(hf.conds(r), cp, lambda nm: hsd.get(nm))
+                        ok, ubtxt = ub is not None and ub + hoff <= alen - 1, "ub=%s%+d" % (ub, hoff)
+                    key = (apath, "%s():%s" % (H.name, cp))
+                    if key in seen:
+                        continue
+                    seen.add(key)
+                    count += 1
+                    rep.saw(func)
+                    inst = "%s[%s()]" % (apath, H.name) if cp == "const" else "%s[%s]" % (apath, cp)
+                    if ok:
+                        rep.ok(rule, where(func), inst, "store %s: index returned by %s is bounded (%s, capacity %d)" % (unparse(lhs)[:80], H.name, ubtxt, alen))
+                    elif isarmed:
+                        rep.violation(rule, where(func), inst,
+                                      "store to %s uses the index returned by %s (`return %s`), which is not bounded by the capacity %d on that return path (%s)" %
+                                      (unparse(lhs)[:80], H.name, unparse(r.c[0])[:80], alen, ubtxt), line=st.line)
+                    else:
+                        rep.info("%s: unarmed R-CAP instance %s in %s (index helper %s) has no bound" % (rule, inst, where(func), H.name))
+                continue
             lin = linear(idx, resolve)
             if lin is None or lin[0] is None:
                 continue
@@ -186,6 +218,39 @@ def rcap(db, func, rep, rule="R-CAP", counters_only=True, caller_summaries=True,
                 rep.info("%s: unarmed R-CAP instance %s in %s has no dominating bound (count is fixed by the backend skeleton; see tables/c05_rcap.json)" %
                          (rule, inst, where(func)))
     return count
+
+
+def _index_helper(db, func, idx, sd):
+    """(helper, [(return node, linear form)]) if the index is a local whose only definition is a call to a function of the
+    same translation unit that is passed the caller's variables unchanged and returns linear index expressions."""
+    ix = strip_casts(idx)
+    if ix is None or ix.k != "DeclRefExpr" or ix.name not in sd:
+        return None
+    d = strip_casts(sd[ix.name])
+    if d is None or d.k != "CallExpr" or not d.name:
+        return None
+    H = func.tu.fn.get(d.name)
+    if H is None or H is func:
+        return None
+    pn = [p["name"] for p in H.params]
+    an = [access_path(a) for a in d.args()]
+    if pn != an:
+        return None
+    hsd = single_defs(H)
+    rets = []
+    for r in H.walk():
+        if r.k == "ReturnStmt" and r.c and r.c[0] is not None:
+            e = strip_casts(r.c[0])
+            if e.v is not None:
+                rets.append((r, (None, e.v)))
+                continue
+            lin = linear(e, lambda nm: hsd.get(nm))
+            if lin is None:
+                return None
+            rets.append((r, lin))
+    if not any(l[0] is not None for _, l in rets):
+        return None
+    return H, rets
 
 
 def _parent(path):
@@ -301,3 +366,28 @@ def is_null_test(cond, pol, path, sentinel):
     if op == "==":
         return k != sentinel
     return False
+
+
+def free_then_null(f, rep, rule, recs, releasers=("free", "orc_code_free")):
+    """R-NULL after release: a field of a longer-lived record that function f frees must be overwritten (NULL or a
+    new value) on every path from the free to the function's exit.  Returns the number of instances judged."""
+    from flow import paths_avoiding
+    from ownership import object_key
+    n = 0
+    for c in f.calls():
+        if c.name not in releasers:
+            continue
+        a = strip_casts(c.args()[0])
+        if a is None or a.k not in ("MemberExpr", "ArraySubscriptExpr"):
+            continue
+        rec, suf = object_key(a)
+        if rec not in recs:
+            continue
+        p = access_path(a)
+        n += 1
+        w = paths_avoiding(f, c, lambda e, pp=p: e.k == "BinaryOperator" and e.op == "=" and access_path(e.c[0]) == pp)
+        rep.check(w is None, rule, where(f), p,
+                  "freed field is overwritten (NULL or new value) before the function returns",
+                  "%s frees %s and can return with the dangling pointer still in the field (double free / use after free later)" % (f.name, p),
+                  line=c.line)
+    return n
